@@ -18,9 +18,10 @@ props_for() {
       revocation.go|configparser.go|caddyfile.go|config/*) props="$props C03 C19 C01";;
       crl/crlrevocationchecker.go) props="$props C10 C15 C13 C01 C20";;
       crl/crlrepository/*) props="$props C08 C09 C10 C11 C12 C13 C16 C04 C01 C15 C20";;
-      crl/crlstore/*) props="$props C18 C09 C08 C11 C12 C16 C10 C01 C20";;
-      crl/crlloader/*) props="$props C20 C10 C15";;
-      crl/crlreader/*|core/asn1parser/*|core/hashing/*|core/signatureverify/*|core/pemreader/*) props="$props C06 C07 C04 C01 C08 C11";;
+      crl/crlstore/*) props="$props C18 C09 C08 C11 C12 C16 C10 C01 C20 C17";;
+      crl/crlloader/*) props="$props C20 C10 C15 C17";;
+      core/hashing/hashes.go) props="$props C18 C11 C01";;
+      crl/crlreader/*|core/asn1parser/*|core/hashing/*|core/signatureverify/*|core/pemreader/*) props="$props C06 C07 C04 C01 C08 C11 C17";;
       ocsp/*) props="$props C02 C05 C14 C13";;
       core/certificatechains.go) props="$props C04 C02 C05 C07";;
       *) props="$props C01";;
